@@ -53,7 +53,10 @@ def check(run, replay=None):
     for k in caps:
         if k not in exes:
             continue
-        rc, so, se = C.sh(exes[k], timeout=900)
+        if replay is not None:
+            rc, so, se = C.sh("%s %s 12 64" % (exes[k], replay["kind"]), timeout=900)
+        else:
+            rc, so, se = C.sh(exes[k], timeout=900)
         lines = [parse(l) for l in so.split("\n")]
         lines = [l for l in lines if l]
         if replay is not None:
@@ -104,6 +107,31 @@ def check(run, replay=None):
                             "although no overflow happened in this run: [%s]" % (l["kind"], l["s"], l["trace"]), payload)
         cov["samples"].append({"capacity": k, "case": [lines[len(lines) // 3]["kind"], lines[len(lines) // 3]["s"], lines[len(lines) // 3]["d"]],
                                "trace": lines[len(lines) // 3]["trace"][:200]} if lines else {})
+    # when only the discipline / an obligation / the correspondence broke: search the implementation for a real overflow
+    broken = [f for f in run.findings if f["kind"] == "broken-obligation"]
+    if broken and replay is None and not any(f["kind"] == "counterexample" for f in run.findings):
+        kinds = sorted(set(f["payload"].get("kind") for f in broken if f["payload"].get("kind"))) or sorted(kinds_seen)
+        nsearch = 0
+        for k in caps:
+            if k not in exes:
+                continue
+            for kd in kinds[:12]:
+                rc, so, se = C.sh("%s %s 12 64" % (exes[k], kd), timeout=600)
+                for l in [parse(x) for x in so.split("\n")]:
+                    if not l:
+                        continue
+                    nsearch += 1
+                    if l["viol"] > 0:
+                        run.finding("overflow:%s" % l["kind"], "counterexample",
+                                    "search: statement kind '%s' (size %d) entered with %d spare operation slots and initial capacity %d stores %d time(s) "
+                                    "beyond the allocated capacity: trace [%s]" % (l["kind"], l["s"], l["d"], k, l["viol"], l["trace"]),
+                                    {"capacity": k, "kind": l["kind"], "s": l["s"], "d": l["d"], "trace": l["trace"]})
+                        break
+                if any(f["kind"] == "counterexample" for f in run.findings):
+                    break
+            if any(f["kind"] == "counterexample" for f in run.findings):
+                break
+        cov["search_cases"] = nsearch
     # generated obligations: one per check_space call
     gen = os.path.join(C.COQ, "generated", "Gen_Sites.v")
     nsites = len(re.findall(r"^\s*mkSite ", open(gen).read(), re.M)) if os.path.exists(gen) else 0
